@@ -440,12 +440,22 @@ func regoC13(c *checkCtx) {
 		progs = append(progs, regosym.Program{Name: "P", Validations: []regosym.Validation{{Name: "v", Level: "violation", Class: 0, Message: m,
 			F: regosym.And{Fs: []regosym.Formula{regosym.Atom{Path: regosym.P(2), Kind: "maxCount", N: 0}}}}}})
 	}
+	// the same over values that a truth test takes for "no value": a property that is false, 0 or the
+	// empty string is still a property the node has
+	for _, m := range []string{"m {{ex.p0}} end", "{{ex.p0}}/{{ ex.p1 }}/{{ex.p0}}"} {
+		m = regosym.FixPreds(m)
+		progs = append(progs, regosym.Program{Name: "falsy values", Validations: []regosym.Validation{{Name: "v", Level: "violation", Class: 0, Message: m,
+			F: regosym.And{Fs: []regosym.Formula{regosym.Atom{Path: regosym.P(1), Kind: "minCount", N: 1}}}}}})
+	}
 	scope := func(p regosym.Program) regosym.Scope {
 		sc := regosym.ScopeFor(p, 2, 2, 2)
 		sc.Scalars = regosym.MessagePool()
+		if p.Name == "falsy values" {
+			sc.Scalars = regosym.MessagePoolFalsy()
+		}
 		return sc
 	}
-	c.evidence["bounds_regosym"] = map[string]any{"messages": msgs, "profile_names": pnames, "validation_names": vnames, "plain_scalars (profile name, validation name, message written without quotes)": plain, "value_pool": "a string with a quote and a percent sign, an integer, a boolean, a float"}
+	c.evidence["bounds_regosym"] = map[string]any{"messages": msgs, "profile_names": pnames, "validation_names": vnames, "plain_scalars (profile name, validation name, message written without quotes)": plain, "value_pool": "a string with a quote and a percent sign, an integer, true, a float; for two of the messages also false, 0, the empty string and a plain string"}
 	outs, err := runShapes(regoWork(c), progs, scope, regosym.ShapeOptions{Message: true}, 16)
 	if err != nil {
 		c.inconclusive("regosym: " + err.Error())
